@@ -151,6 +151,28 @@ Theorem C02_equal_implies_same_hash : forall h a b,
 Proof. exact equal_implies_same_hash. Qed.
 Print Assumptions C02_equal_implies_same_hash.
 
+(* copies (copy.copy / copy.deepcopy / pickle round trip, where the tree under test produces one -- [Copy o how true]):
+   in ANY world the copy carries exactly the identity of its original, which keeps its own; with
+   C02_identity_never_changes both keep it for ever, so copy == original and hash alike for ever
+   (C02_hash_agrees_with_eq), and a copy of a stale object is never given the identity of the PID's new owner *)
+Theorem C02_copy_has_identity_of_original : forall w o hw n,
+  outcome_of w (EC (Copy o hw true)) = Val (RObj n) ->
+  obj_ident (next w (EC (Copy o hw true))) n = obj_ident w o /\ obj_ident w o <> None
+  /\ obj_ident (next w (EC (Copy o hw true))) o = obj_ident w o.
+Proof. exact copy_has_identity_of_original. Qed.
+Print Assumptions C02_copy_has_identity_of_original.
+
+(* ... and (well-formed histories) it is bound to the incarnation its original is bound to: every theorem of this
+   file and of Properties/C01.v that speaks about "an object of a reachable world" speaks about copies too *)
+Theorem C02_copy_binding : forall h o hw n,
+  wf_hist h = true -> outcome_of (run h) (EC (Copy o hw true)) = Val (RObj n) ->
+  let w' := run (h ++ [EC (Copy o hw true)]) in
+  has_obj w' n = true /\ has_obj (run h) o = true
+  /\ g_inc w' n = g_inc (run h) o /\ obj_pid w' n = obj_pid (run h) o
+  /\ (forall i, alive w' i = alive (run h) i) /\ (forall p, owner w' p = owner (run h) p).
+Proof. exact copy_binding. Qed.
+Print Assumptions C02_copy_binding.
+
 (* once an is_running() call has answered False, every later one answers False -- whatever happens in between *)
 Theorem C02_is_running_false_for_ever : forall h1 h2 o,
   outcome_of (run h1) (EC (IsRunning o)) = Val (RBool false) ->
